@@ -373,25 +373,75 @@ theorem tar_member_run_chunking_independent (B : Nat) (hB : 0 < B) (data : Bytes
     (rel_init B data) hf hf
   exact ⟨a1, a2, a3, a4, a5, a1.trans b1.symm, a2.trans b2.symm, a3.trans b3.symm, a5.trans b5.symm⟩
 
-/-- **`tar_member_run_decompressed_chunking_independent`.** The same member run when the archive is compressed
-(`tar_open_stream` wraps the input into a decompressing stream): for **every** codec. -/
+/-- **`tar_member_run_decompressed_chunking_independent`.** The same member run when the archive is compressed,
+the way `tar_open_stream` sets it up (iterator.c:420-449): the probe is made on the raw input, the iterator then reads
+through a fresh decompressing stream around it and `tar->compressed` is set, so that `it_next`, when `read_header`
+meets the end of the archive, first reads the rest of the stream to its end (`drain_compressed_stream`) and
+reports an error it meets there (damaged or truncated compressed input) instead of the end of the archive.
+For **every** codec, codec state, buffer sizes, input, member geometry, client history and script of short counts
+and `EINTR`s: both `it_next` results — **including the error the drain reports** —, every observation of the client,
+its output, and the iterator's whole bookkeeping (sticky `state`, `record_size`, `offset`, `compressed`, …; codec
+state, buffer and read offset of the decompressing stream) are those of the run in which every `read` completes in
+full; the raw input streams of the two runs stand at the same position of the file (both are related to the same
+ideal window stream, first conjunct group). -/
 theorem tar_member_run_decompressed_chunking_independent {κ : Type} (C : Codec κ) (k0 : κ) (BX limit B : Nat)
     (hB : 0 < B) (data : Bytes) (g : MemberGeom) (o : OStream) (ops : List Op) (os : OS) (h : noHard os.sc = true) :
-    (tarMemberRun (xfrmStream (fileStream B) C BX limit) ⟨IStream.init data, k0, 0, []⟩ g o ops os).1 =
-      (tarMemberRun (xfrmStream (fileStream B) C BX limit) ⟨IStream.init data, k0, 0, []⟩ g o ops OS.full).1 ∧
-    (tarMemberRun (xfrmStream (fileStream B) C BX limit) ⟨IStream.init data, k0, 0, []⟩ g o ops os).2.1 =
-      (tarMemberRun (xfrmStream (fileStream B) C BX limit) ⟨IStream.init data, k0, 0, []⟩ g o ops OS.full).2.1 ∧
-    (tarMemberRun (xfrmStream (fileStream B) C BX limit) ⟨IStream.init data, k0, 0, []⟩ g o ops os).2.2.1 =
-      (tarMemberRun (xfrmStream (fileStream B) C BX limit) ⟨IStream.init data, k0, 0, []⟩ g o ops OS.full).2.2.1 ∧
-    (tarMemberRun (xfrmStream (fileStream B) C BX limit) ⟨IStream.init data, k0, 0, []⟩ g o ops os).2.2.2.2.1 =
-      (tarMemberRun (xfrmStream (fileStream B) C BX limit) ⟨IStream.init data, k0, 0, []⟩ g o ops OS.full).2.2.2.2.1 := by
+    -- against the run over the ideal window stream (no buffer, no OS)
+    ((tarMemberRunZ (fileStream B) C k0 BX limit (IStream.init data) g o ops os).1 =
+      (tarMemberRunZ (idealStream B data) C k0 BX limit ⟨0, 0⟩ g o ops OS.full).1 ∧
+    (tarMemberRunZ (fileStream B) C k0 BX limit (IStream.init data) g o ops os).2.1 =
+      (tarMemberRunZ (idealStream B data) C k0 BX limit ⟨0, 0⟩ g o ops OS.full).2.1 ∧
+    (tarMemberRunZ (fileStream B) C k0 BX limit (IStream.init data) g o ops os).2.2.1 =
+      (tarMemberRunZ (idealStream B data) C k0 BX limit ⟨0, 0⟩ g o ops OS.full).2.2.1 ∧
+    TItRel (XRel (Rel B data)) (tarMemberRunZ (fileStream B) C k0 BX limit (IStream.init data) g o ops os).2.2.2.1
+      (tarMemberRunZ (idealStream B data) C k0 BX limit ⟨0, 0⟩ g o ops OS.full).2.2.2.1 ∧
+    (tarMemberRunZ (fileStream B) C k0 BX limit (IStream.init data) g o ops os).2.2.2.2.1 =
+      (tarMemberRunZ (idealStream B data) C k0 BX limit ⟨0, 0⟩ g o ops OS.full).2.2.2.2.1) ∧
+    -- against the unperturbed run
+    (tarMemberRunZ (fileStream B) C k0 BX limit (IStream.init data) g o ops os).1 =
+      (tarMemberRunZ (fileStream B) C k0 BX limit (IStream.init data) g o ops OS.full).1 ∧
+    (tarMemberRunZ (fileStream B) C k0 BX limit (IStream.init data) g o ops os).2.1 =
+      (tarMemberRunZ (fileStream B) C k0 BX limit (IStream.init data) g o ops OS.full).2.1 ∧
+    (tarMemberRunZ (fileStream B) C k0 BX limit (IStream.init data) g o ops os).2.2.1 =
+      (tarMemberRunZ (fileStream B) C k0 BX limit (IStream.init data) g o ops OS.full).2.2.1 ∧
+    (tarMemberRunZ (fileStream B) C k0 BX limit (IStream.init data) g o ops os).2.2.2.2.1 =
+      (tarMemberRunZ (fileStream B) C k0 BX limit (IStream.init data) g o ops OS.full).2.2.2.2.1 ∧
+    -- the sticky state of the iterator (what every later `it_next` returns), its bookkeeping and the `compressed` flag
+    (tarMemberRunZ (fileStream B) C k0 BX limit (IStream.init data) g o ops os).2.2.2.1.state =
+      (tarMemberRunZ (fileStream B) C k0 BX limit (IStream.init data) g o ops OS.full).2.2.2.1.state ∧
+    (tarMemberRunZ (fileStream B) C k0 BX limit (IStream.init data) g o ops os).2.2.2.1.recordSize =
+      (tarMemberRunZ (fileStream B) C k0 BX limit (IStream.init data) g o ops OS.full).2.2.2.1.recordSize ∧
+    (tarMemberRunZ (fileStream B) C k0 BX limit (IStream.init data) g o ops os).2.2.2.1.compressed =
+      (tarMemberRunZ (fileStream B) C k0 BX limit (IStream.init data) g o ops OS.full).2.2.2.1.compressed := by
+  have hf : noHard OS.full.sc = true := by simp [noHard, OS.full]
+  have hsim := file_sim B hB data
+  obtain ⟨a1, a2, a3, a4, a5⟩ := tarMemberRunZ_sim hsim C k0 BX limit _ _ g o ops os OS.full (rel_init B data) h hf
+  obtain ⟨b1, b2, b3, b4, b5⟩ := tarMemberRunZ_sim hsim C k0 BX limit _ _ g o ops OS.full OS.full (rel_init B data) hf hf
+  refine ⟨⟨a1, a2, a3, a4, a5⟩, a1.trans b1.symm, a2.trans b2.symm, a3.trans b3.symm, a5.trans b5.symm, ?_, ?_, ?_⟩
+  · exact a4.2.1.trans b4.2.1.symm
+  · exact a4.2.2.2.1.trans b4.2.2.2.1.symm
+  · exact a4.2.2.2.2.2.2.2.2.2.trans b4.2.2.2.2.2.2.2.2.2.symm
+
+/-- **`drain_compressed_stream_chunking_independent`.** `it_next` on an iterator whose input is compressed
+(`tar->compressed`), from every pair of related states (any codec state, any buffer content of the decompressing
+stream, raw input at the same position of the file): the result — end of archive, the error of a skip, of
+`read_header`, or **of the drain of the rest of the compressed stream** — and the iterator afterwards are the same
+under every script of short counts and `EINTR`s as over the ideal stream when the OS never splits a call. -/
+theorem drain_compressed_stream_chunking_independent {κ : Type} (C : Codec κ) (BX limit B : Nat) (hB : 0 < B)
+    (data : Bytes) (a : TarIt (XStream IStream κ)) (b : TarIt (XStream Ideal κ))
+    (hr : TItRel (XRel (Rel B data)) a b) (os : OS) (h : noHard os.sc = true) :
+    (tarNext (xfrmStream (fileStream B) C BX limit) a os).1 =
+      (tarNext (xfrmStream (idealStream B data) C BX limit) b OS.full).1 ∧
+    TItRel (XRel (Rel B data)) (tarNext (xfrmStream (fileStream B) C BX limit) a os).2.1
+      (tarNext (xfrmStream (idealStream B data) C BX limit) b OS.full).2.1 ∧
+    (tarNext (xfrmStream (fileStream B) C BX limit) a os).1 =
+      (tarNext (xfrmStream (fileStream B) C BX limit) a OS.full).1 := by
   have hf : noHard OS.full.sc = true := by simp [noHard, OS.full]
   have hsim := xfrm_sim (file_sim B hB data) C BX limit
-  have hr0 : XRel (Rel B data) (⟨IStream.init data, k0, 0, []⟩ : XStream IStream κ) ⟨⟨0, 0⟩, k0, 0, []⟩ :=
-    ⟨rel_init B data, rfl, rfl, rfl⟩
-  obtain ⟨a1, a2, a3, _, a5⟩ := tarMemberRun_sim hsim _ _ g o ops os OS.full hr0 h hf
-  obtain ⟨b1, b2, b3, _, b5⟩ := tarMemberRun_sim hsim _ _ g o ops OS.full OS.full hr0 hf hf
-  exact ⟨a1.trans b1.symm, a2.trans b2.symm, a3.trans b3.symm, a5.trans b5.symm⟩
+  obtain ⟨a1, os1, e1, r1, _, _⟩ := tarNext_sim hsim a b os OS.full hr h hf
+  obtain ⟨a2, os2, e2, _, _, _⟩ := tarNext_sim hsim a b OS.full OS.full hr hf hf
+  rw [e1, e2]
+  exact ⟨rfl, r1, rfl⟩
 
 /-! ### non-vacuity: concrete scripts with short counts, `EINTR` bursts and hard errors -/
 
@@ -425,21 +475,21 @@ example : nextLine 7 [32,97,98,32,13,10,10,32,120] 0 = (some [97,98], [10,32,120
 -- through a 4-byte buffer fed one byte at a time with EINTRs: holes are zeros, the data regions are the record's bytes,
 -- then end-of-data; afterwards the iterator has no record bytes left
 example : (runOps (tarStream (fileStream 4))
-      ⟨tarOpen ⟨IStream.init [11,12,13,14,15,99,98,97], .ok, false, 5, 9, 0, 3, [⟨2,3⟩,⟨7,2⟩], false⟩, OStream.init false, 0⟩
+      ⟨tarOpen ⟨IStream.init [11,12,13,14,15,99,98,97], .ok, false, 5, 9, 0, 3, [⟨2,3⟩,⟨7,2⟩], false, false⟩, OStream.init false, 0⟩
       [.read 4, .get 100, .read 100, .get 1] ⟨[.part 0, .eintr, .part 0, .eintr, .eintr, .part 0], []⟩).1 =
     [.read (.n [0,0,11,12]), .get .ok [13], .read (.n [13,0,0,14,15]), .get .eof []] := by decide
 example : ((runOps (tarStream (fileStream 4))
-      ⟨tarOpen ⟨IStream.init [11,12,13,14,15,99,98,97], .ok, false, 5, 9, 0, 3, [⟨2,3⟩,⟨7,2⟩], false⟩, OStream.init false, 0⟩
+      ⟨tarOpen ⟨IStream.init [11,12,13,14,15,99,98,97], .ok, false, 5, 9, 0, 3, [⟨2,3⟩,⟨7,2⟩], false, false⟩, OStream.init false, 0⟩
       [.read 4, .get 100, .read 100, .get 1] ⟨[.part 0, .eintr, .part 0], []⟩).2.1.s.it.recordSize,
     (runOps (tarStream (fileStream 4))
-      ⟨tarOpen ⟨IStream.init [11,12,13,14,15,99,98,97], .ok, false, 5, 9, 0, 3, [⟨2,3⟩,⟨7,2⟩], false⟩, OStream.init false, 0⟩
+      ⟨tarOpen ⟨IStream.init [11,12,13,14,15,99,98,97], .ok, false, 5, 9, 0, 3, [⟨2,3⟩,⟨7,2⟩], false, false⟩, OStream.init false, 0⟩
       [.read 4, .get 100, .read 100, .get 1] ⟨[.part 0, .eintr, .part 0], []⟩).2.1.s.alive) = (0, false) := by decide
 -- the `TRel` hypothesis of `tar_member_stream_chunking_independent` is satisfiable
 example : TRel (Rel 4 [1,2,3]) (tarOpen ((TarIt.init (IStream.init [1,2,3])).setMember ⟨3, 3, []⟩))
     (tarOpen ((TarIt.init (⟨0, 0⟩ : Ideal)).setMember ⟨3, 3, []⟩)) :=
-  ⟨⟨rel_init 4 [1,2,3], rfl, rfl, rfl, rfl, rfl, rfl, rfl, rfl⟩, rfl, rfl, rfl⟩
+  ⟨⟨rel_init 4 [1,2,3], rfl, rfl, rfl, rfl, rfl, rfl, rfl, rfl, rfl⟩, rfl, rfl, rfl⟩
 -- a record that ends early is reported as corrupted, not as a short member
-example : (runOps (tarStream (fileStream 4)) ⟨tarOpen ⟨IStream.init [1,2], .ok, false, 5, 5, 0, 3, [], false⟩, OStream.init false, 0⟩
+example : (runOps (tarStream (fileStream 4)) ⟨tarOpen ⟨IStream.init [1,2], .ok, false, 5, 5, 0, 3, [], false, false⟩, OStream.init false, 0⟩
       [.read 5] ⟨[.part 0], []⟩).1 = [.read (.fail .corrupted)] := by decide
 -- after a failed `ftruncate` the descriptor stays ahead of the end of the file and the hole stays pending (unix.c:73-84)
 example : (runOOpsAll (OStream.init false) [.data [1], .hole 3, .flush, .flush] ⟨[.part 0, .err], []⟩).1 = [.ok, .ok, .io, .ok] ∧
@@ -449,5 +499,24 @@ example : (runOps (fileStream 4) ⟨IStream.init [1,2,3,4,5,6], OStream.init fal
       ⟨[.part 0, .eintr, .part 1], []⟩).1 = [.skip .ok, .skip .oob] ∧
     (runOps (fileStream 4) ⟨IStream.init [1,2,3,4,5,6], OStream.init false, 0⟩ [.skip 7] ⟨[.part 0, .eintr], []⟩).1 = [.skip .oob] := by
   decide
+
+-- the drain reports what it meets: 1024 zero bytes (the end-of-archive marker) and one more byte through `chunkCodec`
+-- (passes at most 512 bytes per call, rejects input that starts with 0xFF), file fed 600 bytes at a time with an EINTR:
+-- a clean rest gives "end of archive" (1), a damaged rest the decompressor's error; without the flag the damage goes unseen
+set_option maxRecDepth 20000 in
+example : (tarNext (xfrmStream (fileStream 2048) chunkCodec 1024 50)
+      { TarIt.init (⟨IStream.init (List.replicate 1024 0 ++ [255]), (), 0, []⟩ : XStream IStream Unit) with compressed := true }
+      ⟨[.part 599, .eintr], []⟩).1 = .state (.err .compressor) ∧
+    (tarNext (xfrmStream (fileStream 2048) chunkCodec 1024 50)
+      { TarIt.init (⟨IStream.init (List.replicate 1024 0 ++ [7]), (), 0, []⟩ : XStream IStream Unit) with compressed := true }
+      ⟨[.part 599, .eintr], []⟩).1 = .state .eof ∧
+    (tarNext (xfrmStream (fileStream 2048) chunkCodec 1024 50)
+      (TarIt.init (⟨IStream.init (List.replicate 1024 0 ++ [255]), (), 0, []⟩ : XStream IStream Unit))
+      ⟨[.part 599, .eintr], []⟩).1 = .state .eof := by decide
+-- the `TItRel` hypothesis of `drain_compressed_stream_chunking_independent` is satisfiable
+example : TItRel (XRel (Rel 4 [1,2,3]))
+    { TarIt.init (⟨IStream.init [1,2,3], 0, 0, []⟩ : XStream IStream Nat) with compressed := true }
+    { TarIt.init (⟨⟨0, 0⟩, 0, 0, []⟩ : XStream Ideal Nat) with compressed := true } :=
+  ⟨⟨rel_init 4 [1,2,3], rfl, rfl, rfl⟩, rfl, rfl, rfl, rfl, rfl, rfl, rfl, rfl, rfl⟩
 
 end Sqfs.C12
